@@ -268,11 +268,23 @@ class Universe:
             hook = cmd[1]
             outcome: Any = None
             entered = False
+            restore_ctg: Any = None
+            if hook == "fault":
+                # the one step of entering a root context that can fail: its task group cannot be created
+                import asphalt.core._context as _cm
+
+                restore_ctg = _cm.create_task_group
+
+                def failing_ctg(*a: Any, **kw: Any) -> Any:
+                    _cm.create_task_group = restore_ctg
+                    raise HE("no task group")
+
+                _cm.create_task_group = failing_ctg
             try:
                 with anyio.CancelScope() as scope:
                     async with ctx:
                         entered = True
-                        if hook:
+                        if hook is True:
                             ctx.add_teardown_callback(td_hook)
                         await outbox.put(("entered", None))
                         while True:
@@ -288,6 +300,9 @@ class Universe:
                             await checkpoint()
             except BaseException as e:  # noqa: BLE001
                 outcome = e
+            finally:
+                if restore_ctg is not None:
+                    _cm.create_task_group = restore_ctg
             if not entered:
                 await outbox.put(("enter-failed", outcome))
             else:
